@@ -26,6 +26,7 @@ type PairCall struct {
 	ID        string   `json:"id"`
 	Pad       string   `json:"pad,omitempty"`
 	Replies   []string `json:"replies,omitempty"` // parameters of each reply, in order (all but the last are sent with continues)
+	GapMS     int      `json:"gap_ms,omitempty"` // the handler waits this long between two replies of a sequence
 	BigPad    int      `json:"big_pad,omitempty"` // replace Pad by a generated string of this many bytes (kept out of replay files)
 	BigReply  int      `json:"big_reply,omitempty"`
 	ExactPad  int      `json:"exact_pad,omitempty"` // pad and last reply are strings of exactly this many 'x'
@@ -47,6 +48,9 @@ func (pc *PairCall) script(jg *JGen) *CallScript {
 		cs.Pad = json.RawMessage(pc.Pad)
 	}
 	for i, w := range pc.Replies {
+		if i > 0 && pc.GapMS > 0 {
+			cs.Steps = append(cs.Steps, Step{Op: "sleep", N: pc.GapMS})
+		}
 		raw := json.RawMessage(w)
 		if w == "" {
 			cs.Steps = append(cs.Steps, Step{Op: "reply", Cont: i < len(pc.Replies)-1, NoPar: true})
@@ -124,9 +128,11 @@ func runPairCase(r *fw.Run, p *Pair, prop string, c *pairCase, framing bool) int
 			params = cs
 		}
 		exps = append(exps, expect{text, pc.ID})
-		want := make([][]byte, len(cs.Steps))
-		for i, st := range cs.Steps {
-			want[i] = st.Raw
+		var want [][]byte
+		for _, st := range cs.Steps {
+			if st.Op == "reply" {
+				want = append(want, st.Raw)
+			}
 		}
 		switch pc.Style {
 		case "oneway":
@@ -206,7 +212,10 @@ func runPairCase(r *fw.Run, p *Pair, prop string, c *pairCase, framing bool) int
 				var out json.RawMessage
 				var fl uint64
 				var err error
-				p, hung := catchBounded(60*time.Second, func() { fl, err = recv(ctx, &out) })
+				// every receive under a context of its own that ends as soon as the receive has returned
+				rctx, rcancel := context.WithCancel(ctx)
+				p, hung := catchBounded(60*time.Second, func() { fl, err = recv(rctx, &out) })
+				rcancel()
 				if hung || p != "" {
 					if hung {
 						report("operation-hangs", fmt.Sprintf("call %s reply %d of %d: receive has not returned 60 s after it began (its context ended after 25 s)", pc.ID, i, len(want)))
@@ -626,6 +635,9 @@ func genPairCalls(rng *rand.Rand, jg *JGen, tag string, n int, depth int) []Pair
 		default:
 			pc.Style = "more"
 			k := []int{1, 1, 2, 3, 5, 9, 17}[rng.Intn(7)]
+			if k > 1 && k <= 5 && rng.Intn(6) == 0 {
+				pc.GapMS = 6 + rng.Intn(20)
+			}
 			for j := 0; j < k; j++ {
 				pc.Replies = append(pc.Replies, fmt.Sprintf(`{"i":%d,"v":%s}`, j, jg.Value(depth-1)))
 			}
@@ -963,7 +975,7 @@ func runC02(r *fw.Run) {
 func init() {
 	fw.Register(&fw.Engine{
 		ID: "C03", Level: "exploration",
-		Rule: "a case = one client connection making 1..5 calls through a recording proxy to a real Service on one of the four transports (filesystem unix socket, abstract unix socket, TCP, bridge subprocess via NewBridge) in one of four call styles (Call; Send+receive; Send with more + a sequence of 1,2,3,5,9 or 17 replies; Send with oneway under a context that ends as soon as Send has returned, also as the last thing before Close, some with 150-550 KB of parameters). Parameters are generated JSON objects (integers beyond 2^53 and 2^64, exponents, -0, 1.0e+2, empty objects/arrays, null members, unicode incl. NUL escapes, surrogate pairs, U+2028) passed as json.RawMessage, as map[string]interface{} with json.Number, or as a typed struct; each reply's parameters are generated the same way; one reply in eight has no parameters member at all (Reply(ctx, nil)) and one in eight is a nil json.RawMessage or *json.RawMessage, at any place of a sequence. Oracle: what the handler read (GetParameters into json.RawMessage) is number-exactly JSON-equal to what the client passed; what receive/Call yielded (into *json.RawMessage) is number-exactly JSON-equal to what the handler replied, for every reply of a more-sequence, with Continues set on all but the last. The proxy forwards unchanged, byte-wise, or in random pieces. distinct by hash of transport + calls; all cases non-trivial (>= 1 generated document each way). Also per transport: a reply followed by the service closing the connection, read late by the client; two calls in flight (Send, Send, receive..., receive...); 2-5 calls whose Sends and receives interleave in seeded orders (S0 S1 R0 S2 R1 ...) while the proxy coalesces everything the service sends within 3 ms into one segment; a monitor-style handler that sends continues-replies and then waits for an event (the client must get them while it waits); Connection.Close bounded at 15 s.",
+		Rule: "a case = one client connection making 1..5 calls through a recording proxy to a real Service on one of the four transports (filesystem unix socket, abstract unix socket, TCP, bridge subprocess via NewBridge) in one of four call styles (Call; Send+receive; Send with more + a sequence of 1,2,3,5,9 or 17 replies; Send with oneway under a context that ends as soon as Send has returned, also as the last thing before Close, some with 150-550 KB of parameters). Every receive runs under a context of its own that ends when the receive has returned; some handlers wait 6-25 ms between the replies of a sequence. Parameters are generated JSON objects (integers beyond 2^53 and 2^64, exponents, -0, 1.0e+2, empty objects/arrays, null members, unicode incl. NUL escapes, surrogate pairs, U+2028) passed as json.RawMessage, as map[string]interface{} with json.Number, or as a typed struct; each reply's parameters are generated the same way; one reply in eight has no parameters member at all (Reply(ctx, nil)) and one in eight is a nil json.RawMessage or *json.RawMessage, at any place of a sequence. Oracle: what the handler read (GetParameters into json.RawMessage) is number-exactly JSON-equal to what the client passed; what receive/Call yielded (into *json.RawMessage) is number-exactly JSON-equal to what the handler replied, for every reply of a more-sequence, with Continues set on all but the last. The proxy forwards unchanged, byte-wise, or in random pieces. distinct by hash of transport + calls; all cases non-trivial (>= 1 generated document each way). Also per transport: a reply followed by the service closing the connection, read late by the client; two calls in flight (Send, Send, receive..., receive...); 2-5 calls whose Sends and receives interleave in seeded orders (S0 S1 R0 S2 R1 ...) while the proxy coalesces everything the service sends within 3 ms into one segment; a monitor-style handler that sends continues-replies and then waits for an event (the client must get them while it waits); Connection.Close bounded at 15 s.",
 		Assumptions: []string{"number fidelity is asserted for callers that receive into json.RawMessage (decoding into interface{} is the caller's own loss)", "an absent parameters member equals {}"},
 		Run:         runC03, Replay: replayPair("C03", false), CrashIsViolation: true, MinEvals: 50,
 		QuickTimeout: 15 * time.Minute, ThoroughTimeout: 60 * time.Minute,
